@@ -12,9 +12,12 @@ import (
 	"path/filepath"
 	"sort"
 	"strings"
+	"sync"
+	"syscall"
 	"time"
 
 	task "github.com/go-task/task/v3"
+	"github.com/go-task/task/v3/args"
 	"github.com/go-task/task/v3/errors"
 )
 
@@ -35,6 +38,18 @@ type decodeCase struct {
 	Inc  string `json:"inc"`  // hex of ./inc.yml ("" = absent)
 	Req  string `json:"req"`  // extra requested task name
 	Note string `json:"note"` // how it was built
+	// in-process run stage with command-line variable assignments (`task t A=… B=…`)
+	Assign []string `json:"assign,omitempty"`
+	// Stage "cli": the real binary is run with Args in a directory holding the documents (+ .taskrc.yml = RC, extra Files,
+	// extra environment Env); Stage "watch": `task -v --watch Args…` for a few seconds, Touch is appended to meanwhile
+	Stage string            `json:"stage,omitempty"`
+	Args  []string          `json:"args,omitempty"`
+	Env   []string          `json:"env,omitempty"`
+	RC    string            `json:"rc,omitempty"` // hex of .taskrc.yml ("" = absent)
+	Files map[string]string `json:"files,omitempty"`
+	Touch string            `json:"touch,omitempty"`
+	// watch stage: the requested task has sources in an existing directory, so the watcher must get to watch it
+	ExpectWatch bool `json:"expect_watch,omitempty"`
 }
 
 var decodeNo int
@@ -92,6 +107,12 @@ func evalDecodeInProc(d decodeCase) string {
 			out = decClassifyErr(err)
 		}
 		e.ListTaskNames(true)
+		// `--list-all --json` (ToEditorOutput: locations, aliases, and — unless --no-status — the up-to-date check of every task)
+		for _, lo := range []task.ListOptions{{ListAllTasks: true, FormatTaskListAsJSON: true, NoStatus: true}, {ListAllTasks: true, FormatTaskListAsJSON: true}} {
+			if _, err := e.ListTasks(lo); err != nil {
+				_ = err.Error()
+			}
+		}
 		var names []string
 		for k := range e.Taskfile.Tasks.Keys(nil) {
 			names = append(names, k)
@@ -123,10 +144,22 @@ func evalDecodeInProc(d decodeCase) string {
 				}
 				return x
 			}
-			reqs := append(append([]string{}, names...), d.Req)
-			for _, stage := range []string{"dry", "dry-force", "summary", "status"} {
+			reqs := append([]string{}, names...)
+			if !containsString(reqs, d.Req) {
+				reqs = append(reqs, d.Req)
+			}
+			stages := []string{"dry", "dry-force", "summary", "status", "vars"}
+			if !strings.Contains(string(doc), "watch") && !strings.Contains(string(doc), "prompt") {
+				// the grammar's commands are harmless (echo, names of programs that do not exist, `exit`): run them for real
+				stages = append(stages, "run")
+			}
+			for _, stage := range stages {
 				var x *task.Executor
 				switch stage {
+				case "run":
+					x = mk()
+				case "vars":
+					x = mk(task.WithDry(true))
 				case "dry":
 					x = mk(task.WithDry(true))
 				case "dry-force":
@@ -142,9 +175,19 @@ func evalDecodeInProc(d decodeCase) string {
 				for _, n := range reqs {
 					ctx, cancel := context.WithTimeout(context.Background(), 800*time.Millisecond)
 					var err error
-					if stage == "status" {
+					switch stage {
+					case "status":
 						err = x.Status(ctx, &task.Call{Task: n})
-					} else {
+					case "vars":
+						// what cmd/task does with `task NAME A=… B=…`
+						as := d.Assign
+						if len(as) == 0 {
+							as = []string{"A={{.B}}", "B={{", "=x", "C=", "D=a=b", "CLI_ARGS=z"}
+						}
+						calls, globals := args.Parse(append([]string{n}, as...)...)
+						x.Taskfile.Vars.Merge(globals, nil)
+						err = x.Run(ctx, calls...)
+					default:
 						err = x.Run(ctx, &task.Call{Task: n})
 					}
 					cancel()
@@ -197,7 +240,136 @@ func startWorker() *decWorker {
 	return &decWorker{cmd, in, bufio.NewReaderSize(outp, 1<<20), &eb}
 }
 
+// ---- the real binary ----
+
+type limitedBuf struct {
+	mu sync.Mutex
+	b  bytes.Buffer
+}
+
+func (l *limitedBuf) Write(p []byte) (int, error) {
+	l.mu.Lock()
+	defer l.mu.Unlock()
+	if l.b.Len() < 1<<20 {
+		l.b.Write(p)
+	}
+	return len(p), nil
+}
+
+func (l *limitedBuf) String() string {
+	l.mu.Lock()
+	defer l.mu.Unlock()
+	return l.b.String()
+}
+
+var cliDecNo int
+var cliDecMu sync.Mutex
+
+func evalDecodeCLI(d decodeCase) (string, string) {
+	bin := os.Getenv("VERIF_TASK_BIN")
+	base := os.Getenv("VERIF_SCRATCH")
+	if bin == "" || base == "" {
+		panic("decode: VERIF_TASK_BIN and VERIF_SCRATCH must be set for the cli / watch stages")
+	}
+	cliDecMu.Lock()
+	cliDecNo++
+	dir := filepath.Join(base, fmt.Sprintf("deccli%d-%d", os.Getpid(), cliDecNo))
+	cliDecMu.Unlock()
+	os.MkdirAll(filepath.Join(dir, "home"), 0o755)
+	defer os.RemoveAll(dir)
+	if d.Doc != "" {
+		doc, _ := unhex(d.Doc)
+		os.WriteFile(filepath.Join(dir, "Taskfile.yml"), doc, 0o644)
+	}
+	if d.Inc != "" {
+		inc, _ := unhex(d.Inc)
+		os.WriteFile(filepath.Join(dir, "inc.yml"), inc, 0o644)
+	}
+	if d.RC != "" {
+		rc, _ := unhex(d.RC)
+		os.WriteFile(filepath.Join(dir, ".taskrc.yml"), rc, 0o644)
+	}
+	for n, c := range d.Files {
+		os.MkdirAll(filepath.Dir(filepath.Join(dir, n)), 0o755)
+		os.WriteFile(filepath.Join(dir, n), []byte(c), 0o644)
+	}
+	argv := d.Args
+	limit := 15 * time.Second
+	if d.Stage == "watch" {
+		argv = append([]string{"-v", "--watch"}, d.Args...)
+		limit = 4500 * time.Millisecond
+	}
+	ctx, cancel := context.WithTimeout(context.Background(), limit)
+	defer cancel()
+	// address-space cap, as for the worker
+	cmd := exec.CommandContext(ctx, "sh", append([]string{"-c", `ulimit -v 6291456 2>/dev/null; exec "$0" "$@"`, bin}, argv...)...)
+	cmd.Dir = dir
+	cmd.Env = append([]string{"PATH=" + os.Getenv("PATH"), "HOME=" + filepath.Join(dir, "home"), "NO_COLOR=1"}, d.Env...)
+	var so, se limitedBuf
+	cmd.Stdout, cmd.Stderr = &so, &se
+	cmd.SysProcAttr = &syscall.SysProcAttr{Setpgid: true}
+	cmd.Cancel = func() error { return syscall.Kill(-cmd.Process.Pid, syscall.SIGKILL) }
+	cmd.WaitDelay = 2 * time.Second
+	if err := cmd.Start(); err != nil {
+		return "decode.outcome err 1", "accept"
+	}
+	watched := false
+	if d.Stage == "watch" {
+		// wait for the watcher to register a directory, then touch the file, then let it react
+		deadline := time.Now().Add(3 * time.Second)
+		for time.Now().Before(deadline) {
+			if strings.Contains(so.String()+se.String(), "watching new dir") {
+				watched = true
+				break
+			}
+			if strings.Contains(se.String(), "panic:") {
+				break
+			}
+			time.Sleep(50 * time.Millisecond)
+		}
+		if d.Touch != "" {
+			time.Sleep(200 * time.Millisecond)
+			if f, err := os.OpenFile(filepath.Join(dir, d.Touch), os.O_APPEND|os.O_CREATE|os.O_WRONLY, 0o644); err == nil {
+				f.WriteString("x\n")
+				f.Close()
+			}
+			time.Sleep(900 * time.Millisecond)
+		}
+		if !strings.Contains(se.String(), "panic:") {
+			syscall.Kill(-cmd.Process.Pid, syscall.SIGKILL)
+		}
+	}
+	err := cmd.Wait()
+	errText := se.String()
+	if strings.Contains(errText, "panic:") || strings.Contains(errText, "fatal error:") || strings.Contains(errText, "[signal SIG") {
+		msg := errText
+		if i := strings.Index(msg, "goroutine "); i > 0 {
+			msg = msg[:min(len(msg), i+700)]
+		}
+		return "decode.outcome panic " + hx(msg[:min(len(msg), 1500)]), "accept"
+	}
+	if d.Stage == "watch" {
+		if d.ExpectWatch && !watched {
+			return "decode.outcome timeout", "accept" // the watcher never got to watch the directory of the sources
+		}
+		return "decode.outcome ok", "accept"
+	}
+	if ctx.Err() != nil {
+		return "decode.outcome timeout", "accept"
+	}
+	if err == nil {
+		return "decode.outcome ok", "accept"
+	}
+	if ee, ok := err.(*exec.ExitError); ok && ee.ExitCode() >= 0 {
+		return fmt.Sprintf("decode.outcome err %d", ee.ExitCode()), "accept"
+	}
+	return "decode.outcome panic " + hx("killed: "+err.Error()+" "+errText[:min(len(errText), 600)]), "accept"
+}
+
 func evalDecode(d decodeCase) (string, string) {
+	if d.Stage == "cli" || d.Stage == "watch" {
+		return evalDecodeCLI(d)
+	}
 	if theWorker == nil {
 		theWorker = startWorker()
 	}
@@ -230,6 +402,15 @@ func decodeWorkerMain() {
 		}
 		w.Flush()
 	}
+}
+
+func containsString(xs []string, s string) bool {
+	for _, x := range xs {
+		if x == s {
+			return true
+		}
+	}
+	return false
 }
 
 func unhex(s string) ([]byte, error) {
@@ -377,8 +558,16 @@ func runDecode(c *Ctx) {
 	}) {
 		return
 	}
+	spent := map[string]time.Duration{}
+	defer func() {
+		if os.Getenv("VERIF_DECODE_TIMES") != "" {
+			fmt.Fprintln(os.Stderr, "decode: time per kind:", spent)
+		}
+	}()
 	emit := func(d decodeCase) {
+		t0 := time.Now()
 		cl, il := evalDecode(d)
+		spent[d.Kind] += time.Since(t0)
 		c.Hit("kind:" + d.Kind)
 		c.Hit("outcome:" + strings.SplitN(strings.TrimPrefix(cl, "decode.outcome "), " ", 2)[0])
 		if d.Note != "same" {
@@ -441,6 +630,110 @@ func runDecode(c *Ctx) {
 				emit(decodeCase{Kind: "shape", Doc: hx(fmt.Sprintf(pos, args...)), Inc: hx(decInc), Note: fmt.Sprintf("pos %d shape %d (include pair)", pi, si)})
 			}
 		}
+	}
+	// (a'') the same shapes at every position INSIDE the included file (the root only includes it and calls its task):
+	// decoding, merging (namespacing, include vars, excludes) and running see the values through the include path.
+	// Quick tier: every fifth pair, rotated by the seed; thorough: all.
+	incRoot := "version: '3'\nincludes: {x: ./inc.yml}\ntasks: {r: {cmds: [{task: 'x:t'}]}, default: {deps: ['x:t']}}\n"
+	for k := 0; k < total; k++ {
+		if !c.Thorough() && (k+int(c.Seed))%5 != 0 {
+			continue
+		}
+		pi, si := k/len(decShapes), k%len(decShapes)
+		pos := decPositions[pi]
+		args := make([]any, strings.Count(pos, "%s"))
+		for i := range args {
+			args[i] = decShapes[si]
+			if i > 0 {
+				args[i] = decShapes[c.Rng.Intn(len(decShapes))]
+			}
+		}
+		c.Hit("shape-inside-include")
+		emit(decodeCase{Kind: "incshape", Doc: hx(incRoot), Inc: hx(fmt.Sprintf(pos, args...)), Req: "x:t", Note: fmt.Sprintf("inc pos %d shape %d", pi, si)})
+	}
+	// (d) very long names, aliases and keys DEFINED in the document (1000 … 10000 characters; a plain YAML key may have
+	// at most 1024, longer ones are written as explicit `? key` entries, aliases and values have no limit)
+	long := func(ch string, n int) string { return strings.Repeat(ch, n) }
+	for _, n := range []int{1000, 1020, 2500, 6000, 10000} {
+		key := func(k string) string { // a mapping key of any length
+			if len(k) <= 1000 {
+				return k
+			}
+			return "? " + k + "\n  "
+		}
+		emit(decodeCase{Kind: "long", Doc: hx("version: '3'\ntasks:\n  build: {aliases: [" + long("n", n) + "], cmds: [echo]}\n"), Req: "buidl", Note: fmt.Sprintf("alias of %d characters", n)})
+		emit(decodeCase{Kind: "long", Doc: hx("version: '3'\ntasks:\n  " + key(long("t", n)) + ": {cmds: [echo]}\n  build: {cmds: [echo]}\n"), Req: long("t", n-1) + "x", Note: fmt.Sprintf("task name of %d characters, asked for with a name one edit away", n)})
+		emit(decodeCase{Kind: "long", Doc: hx("version: '3'\nvars:\n  " + key(long("V", n)) + ": 1\ntasks:\n  build: {vars: {" + long("W", min(n, 1000)) + ": 2}, env: {" + long("E", min(n, 1000)) + ": 3}, cmds: [echo]}\n"), Req: "build", Note: fmt.Sprintf("variable keys of %d characters", n)})
+		emit(decodeCase{Kind: "long", Doc: hx("version: '3'\nincludes:\n  " + key(long("i", n)) + ": ./inc.yml\ntasks:\n  build: {cmds: [echo]}\n"), Inc: hx(decInc), Req: long("i", n) + ":it", Note: fmt.Sprintf("include key (namespace) of %d characters", n)})
+		emit(decodeCase{Kind: "long", Doc: hx("version: '3'\ntasks:\n  'w-*': {cmds: ['echo {{index .MATCH 0}}']}\n"), Req: "w-" + long("m", n), Assign: []string{"A=" + long("a", n), long("K", n) + "=v"}, Note: fmt.Sprintf("wildcard match and assignments of %d characters", n)})
+		c.Hit("long-names")
+	}
+	// (e) + (f): the real binary.  Evaluated eight at a time (each is a process of its own).
+	var cli []decodeCase
+	tf := "version: '3'\nvars: {G: g}\ntasks:\n  t: {desc: d, cmds: ['echo {{.A}} {{.G}}']}\n  default: {cmds: [{task: t}]}\n"
+	rcs := []string{"", "experiments: {REMOTE_TASKFILES: 1}\n", "experiments: {GENTLE_FORCE: 1, ENV_PRECEDENCE: 1}\n", "experiments: [a]\n", "experiments: {X: y}\n", "experiments: ~\n",
+		"version: x\n", "version: [1]\n", "version: 3.0.0\nexperiments: {MAP_VARIABLES: 2}\n", "- a\n", "{\n", "experiments: {GENTLE_FORCE: 99999999999999999999}\n",
+		"\xff\xfe", "experiments:\n  ? [a]\n  : 1\n", "experiments: {" + long("K", 5000) + ": 1}\n", "experiments: &a {b: *a}\n", "\r\r\r", "experiments: {REMOTE_TASKFILES: 1.5}\n"}
+	argSets := [][]string{{"--list-all"}, {"t"}, {"--list", "--json"}, {"--list-all", "--json", "--no-status"}, {"--summary", "t"}, {"--status", "t"}, {"--dry", "--force", "t"}}
+	for i, rc := range rcs {
+		cli = append(cli, decodeCase{Kind: "cli", Stage: "cli", Doc: hx(tf), RC: hx(rc), Args: argSets[i%len(argSets)], Note: ".taskrc.yml shape"})
+	}
+	envs := [][]string{{"TASK_TEMP_DIR=~"}, {"TASK_TEMP_DIR=~nouser/x"}, {"TASK_TEMP_DIR=/dev/null/x"}, {"TASK_TEMP_DIR=rel/dir"}, {"TASK_TEMP_DIR=$(echo)"}, {"TASK_TEMP_DIR=~/\"x"},
+		{"TASK_TEMP_DIR={{.X}}"}, {"TASK_REMOTE_DIR=~nouser"}, {"TASK_REMOTE_DIR=/dev/null/y"}, {"TASK_X_REMOTE_TASKFILES=x"}, {"TASK_X_REMOTE_TASKFILES=-1"},
+		{"TASK_X_REMOTE_TASKFILES=99999999999999999999"}, {"TASK_X_ENV_PRECEDENCE=1", "TASK_X_GENTLE_FORCE=1"}, {"TASK_X_MAP_VARIABLES=2"}, {"TASK_X_NOSUCH=1"},
+		{"TASK_COLOR_RESET=1;2", "FORCE_COLOR=1"}, {"TASK_COLOR_GREEN=a,b,c", "FORCE_COLOR=1"}, {"TASK_COLOR_GREEN=1,2,3", "FORCE_COLOR=1"}, {"TASK_COLOR_RED=999999999999999999999", "FORCE_COLOR=1"},
+		{"TASK_COLOR_BLUE=;;", "FORCE_COLOR=1"}, {"TASK_OFFLINE=maybe"}, {"TASK_OFFLINE=1", "TASK_X_REMOTE_TASKFILES=1"}, {"TASK_TEMP_DIR=" + long("d", 5000)}}
+	for i, ev := range envs {
+		cli = append(cli, decodeCase{Kind: "cli", Stage: "cli", Doc: hx(tf), Env: ev, Args: argSets[(i+1)%len(argSets)], Note: "TASK_* environment value"})
+	}
+	assigns := [][]string{{"t", "A={{"}, {"t", "A={{.B}}", "B={{.A}}"}, {"t", "=x"}, {"t", "A="}, {"t", "A=a=b=c"}, {"A=1"}, {"t", "A={{.G | nosuchfunc}}"}, {"t", "A=" + long("a", 100000)},
+		{"t", long("K", 3000) + "=v"}, {"t", "A=\xff\xfe"}, {"t", "--", "{{", "}}"}, {"t", "CLI_ARGS=1", "TASK=2", "ROOT_DIR=3"}, {"nosuch" + long("x", 3000)}, {"", "A=1"}, {":", "*"}, {"t", "G={{.G}}{{.G}}"},
+		{"--output", "group", "--output-group-begin", "{{", "t"}, {"--output", "nosuch", "t"}, {"--output", "prefixed", "--output-group-begin", "x", "t"}, {"--sort", "nosuch", "--list-all"},
+		{"--taskfile", "/dev/null", "t"}, {"--dir", "/nonexistent/dir", "t"}, {"--taskfile", ".", "t"}, {"--list", "--list-all"}, {"--json"}, {"--no-status", "--list"}, {"--global", "--dir", "x"}, {"--completion", "nosuch"}, {"--experiments"}, {"--concurrency", "-1", "t"}}
+	for _, a := range assigns {
+		cli = append(cli, decodeCase{Kind: "cli", Stage: "cli", Doc: hx(tf), Args: a, Note: "command-line assignments / values of string-valued flags"})
+	}
+	// a few grammar documents through the binary's listing and run paths
+	for k := 0; k < c.Pick(40, 400); k++ {
+		pos := decPositions[c.Rng.Intn(len(decPositions))]
+		as := make([]any, strings.Count(pos, "%s"))
+		for i := range as {
+			as[i] = decShapes[c.Rng.Intn(len(decShapes))]
+		}
+		cli = append(cli, decodeCase{Kind: "cli", Stage: "cli", Doc: hx(fmt.Sprintf(pos, as...)), Inc: hx(decInc), Args: argSets[c.Rng.Intn(len(argSets))], Note: "grammar document through the binary"})
+	}
+	// watch mode
+	wt := func(doc string, expect bool, note string, args ...string) {
+		cli = append(cli, decodeCase{Kind: "watch", Stage: "watch", Doc: hx(doc), Args: args, Files: map[string]string{"a.txt": "a\n", "src/b.txt": "b\n"}, Touch: "a.txt", ExpectWatch: expect, Note: note})
+	}
+	wt("version: '3'\ntasks:\n  t:\n    sources: [~, '*.txt']\n    cmds: [echo run]\n", true, "nil entry in sources under --watch (the file event handler hands the RAW task to Globs)", "t")
+	wt("version: '3'\ntasks:\n  t:\n    sources: ['*.txt', ~]\n    generates: [~]\n    deps: [~]\n    cmds: [~, echo run]\n", true, "nil entries everywhere under --watch", "t")
+	wt("version: '3'\ntasks:\n  a:\n    sources: ['*.txt']\n    status: ['true']\n    cmds: [{task: b}]\n  b:\n    cmds: [{task: a}]\n", true, "cyclic call graph under --watch (status ends it at run time)", "a")
+	wt("version: '3'\ntasks:\n  a:\n    sources: ['*.txt']\n    status: ['true']\n    deps: [b]\n  b:\n    status: ['true']\n    deps: [a]\n", true, "cyclic dependency graph under --watch", "a")
+	wt("version: '3'\ntasks:\n  a:\n    sources: ['*.txt']\n    status: ['true']\n    cmds: [{task: a, vars: {X: '{{.X}}x'}}]\n", false, "cycle that changes a variable on every round under --watch (must end with 'called too many times', not spin)", "a")
+	wt("version: '3'\ntasks:\n  a:\n    sources: ['src/*.txt']\n    cmds: [{task: b, vars: {D: src}}, {task: b, vars: {D: .}}]\n  b:\n    sources: ['{{.D}}/*.txt']\n    cmds: [echo b]\n", true, "one task called twice with different variables under --watch", "a")
+	wt("version: '3'\ntasks:\n  t:\n    watch: true\n    sources: ['*.txt']\n    cmds: [echo run]\n", true, "task with watch: true", "t")
+	wt("version: '3'\ninterval: 1ms\ntasks:\n  t:\n    sources: ['{{', '*.txt']\n    cmds: [echo run]\n", false, "bad template in sources under --watch", "t")
+	res := make([][2]string, len(cli))
+	sem := make(chan struct{}, 8)
+	var wg sync.WaitGroup
+	for i := range cli {
+		i := i
+		wg.Add(1)
+		sem <- struct{}{}
+		go func() {
+			defer wg.Done()
+			defer func() { <-sem }()
+			cl, il := evalDecodeCLI(cli[i])
+			res[i] = [2]string{cl, il}
+		}()
+	}
+	wg.Wait()
+	for i, d := range cli {
+		c.Hit("kind:" + d.Kind)
+		c.Hit("outcome:" + strings.SplitN(strings.TrimPrefix(res[i][0], "decode.outcome "), " ", 2)[0])
+		c.Distinct(d.Doc + "|" + d.RC + "|" + strings.Join(d.Args, " ") + "|" + strings.Join(d.Env, " "))
+		c.Emit(res[i][0], res[i][1], d)
 	}
 	// (b) mutated real Taskfiles
 	files := corpusFiles()
